@@ -397,3 +397,38 @@ func harnessC14SplitHorizon() {
 		}
 	}
 }
+
+// C14 at the replaying agent itself: after it has replayed an origin's routes to
+// a new peer (stamped with its own counter), it still processes, renews and
+// forwards every later genuine announcement of that origin, whatever its number
+func harnessC14ReplayerStillListens() {
+	f, snd, rm := fNew(0, []identity.AgentID{fID(0)})
+	o, x := fID(0), fID(1)
+	nw := fRoute(0)
+	s0 := verif_nondet_u64()
+	ok0 := f.HandleRouteAdvertise(o, o, "", s0, []protocol.Route{nw}, &protocol.EncryptedData{Data: protocol.EncodePath([]identity.AgentID{o})}, []identity.AgentID{o})
+	verif_assert(ok0, "C14/genuine-announcement-ignored")
+	// a new peer connects: full-table replay to it
+	f.sender.(*fSender).peers = []identity.AgentID{o, x}
+	f.SendFullTable(x)
+	// the origin's next announcement, with any later number (possibly the number the replay used)
+	s1 := verif_nondet_u64()
+	verif_assume(s1 > s0)
+	verif_set_now(1000)
+	snd.log = nil
+	ok1 := f.HandleRouteAdvertise(o, o, "", s1, []protocol.Route{nw}, &protocol.EncryptedData{Data: protocol.EncodePath([]identity.AgentID{o})}, []identity.AgentID{o})
+	verif_reach("C14/replayer")
+	verif_assert(ok1, "C14/replaying-agent-ignores-a-genuine-announcement-after-its-own-replay")
+	renewed := false
+	for _, r := range rm.Table().GetAllRoutes() {
+		renewed = renewed || (r.OriginAgent == o && r.Sequence == s1)
+	}
+	verif_assert(renewed, "C14/genuine-announcement-does-not-renew-route")
+	fwd := 0
+	for _, s := range snd.log {
+		if s.to == x {
+			fwd++
+		}
+	}
+	verif_assert(fwd == 1, "C14/genuine-announcement-not-forwarded-after-replay")
+}
